@@ -10,7 +10,7 @@ PROGRAMS = ["forms"]
 RUNS = {"quick": 3000, "thorough": 150000}
 
 FNS = ["plain", "tup_tuple", "tup_nested", "tup_star", "chain", "aug", "ann", "attr", "walrus",
-       "forloop", "fortuple", "nestloop", "whileloop", "tryexc", "withcm", "retnone",
+       "forloop", "fortuple", "forstar", "nestloop", "whileloop", "tryexc", "withcm", "withret", "retnone",
        "kwargs", "callsother", "K.meth", "deco", "clo", "auglist"]
 
 
@@ -85,6 +85,13 @@ def gen(rng, tier, quarantine=()):
                "focus": {"var": v, "as": v}}
         recs.append({"op": "mk", "id": f"q{i}", "kind": "probe", "sels": [sel], "inv": "C04.stream"})
     if need_tool:
+        if "no-probe-before-tooling" not in quarantine and rng.random() < 0.2:
+            # a probe has come and gone before the function is tooled for the overlays: nothing of
+            # it may be left that keeps the tooling from taking effect
+            v0 = rng.choice(names)
+            pre = {"levels": [{"fn": qual, "caps": [], "sibs": []}], "focus": {"var": v0, "as": v0}}
+            ops += [{"op": "mk", "id": "pre", "kind": "probe", "sels": [pre], "nojudge": True},
+                    {"op": "enter", "id": "pre"}, {"op": "exit", "id": "pre"}]
         ops.append({"op": "tool", "fn": qual, "how": "inplace"})
     rng.shuffle(recs)  # activation order drawn by the scheduler
     ops += recs
